@@ -273,6 +273,10 @@ func main() {
 		cmdLin(os.Args[2:])
 	case "srcfacts":
 		cmdSrcFacts(os.Args[2:])
+	case "golean":
+		cmdGoLean(os.Args[2:])
+	case "entproto":
+		cmdEntProto(os.Args[2:])
 	case "pure":
 		cmdPure(os.Args[2:])
 	case "sched":
